@@ -1,8 +1,12 @@
-// Regenerates lean/KG/Gen/C02.lean from /repo's current sources:
-//   - the legal header-name byte table `legalHeaderKeyBytes` and the constant `impersonateHeaderPrefix`
-//     of pkg/transport/dynamic_impersonate.go,
-//   - the order in which buildProxyHandlerChainFunc (cmd/kube-gateway/app/proxy.go) wraps the filters,
-//   - which headers WithNoLoggingImpersonation deletes (shape fact of pkg/gateway/endpoints/filters/impersonation.go).
+// Regenerates lean/KG/Gen/C02.lean from /repo's current sources. The facts are SEMANTIC (what the theorems need), found by role
+// and by evaluation rather than by spelling:
+//   - the prefix of the header names WrapRequest deletes before it writes its own (pkg/transport/dynamic_impersonate.go),
+//   - the SET of bytes the extra-key escape %-encodes: the predicate its guarding `if` calls, evaluated on all 256 bytes (eval.go),
+//   - who can answer an impersonation check: the functions called by the method that builds the proxy authorizer (import paths),
+//   - that CreateProxyConfig wires that authorizer for the config and the cluster manager of the proxy handler chain.
+// Everything else the model assumes about these files (the value check and its place in WrapRequest, the UTF-8 check of
+// buildImpersonationRequests, the filter order, which authorizer the filter is handed) is tied BEHAVIOURALLY by the harness,
+// which runs the real chain builder, the real ApplyTo path and the real transport.
 package main
 
 import (
@@ -29,324 +33,199 @@ func main() {
 		const tfile = "pkg/transport/dynamic_impersonate.go"
 		var b strings.Builder
 		b.WriteString("namespace KG.Gen.C02\n")
-
-		// --- impersonateHeaderPrefix
-		pv := g.Const(tfile, "impersonateHeaderPrefix")
-		prefix, err := strconv.Unquote(pv.ExactString())
-		if err != nil {
-			lib.Fatalf("impersonateHeaderPrefix is not a string constant: %v", pv)
-		}
-		fmt.Fprintf(&b, "/-- `impersonateHeaderPrefix` of %s: %q -/\n", tfile, prefix)
-		fmt.Fprintf(&b, "def impersonateHeaderPrefix : List UInt8 := %s\n", byteList(prefix))
-
-		// --- legalHeaderKeyBytes = [N]bool{ 'c': true, ... }
 		f := g.ParseFile(tfile)
-		var lit *ast.CompositeLit
-		for _, d := range f.Decls {
-			gd, ok := d.(*ast.GenDecl)
-			if !ok || gd.Tok != token.VAR {
-				continue
-			}
-			for _, sp := range gd.Specs {
-				vs := sp.(*ast.ValueSpec)
-				for i, n := range vs.Names {
-					if n.Name == "legalHeaderKeyBytes" && i < len(vs.Values) {
-						lit, _ = vs.Values[i].(*ast.CompositeLit)
-					}
-				}
-			}
-		}
-		if lit == nil {
-			lib.Fatalf("var legalHeaderKeyBytes = [...]bool{...} not found in %s", tfile)
-		}
-		at, ok := lit.Type.(*ast.ArrayType)
-		if !ok || at.Len == nil {
-			lib.Fatalf("legalHeaderKeyBytes is not a fixed-size array literal")
-		}
-		ln, ok := at.Len.(*ast.BasicLit)
-		if !ok || ln.Kind != token.INT {
-			lib.Fatalf("legalHeaderKeyBytes: array length is not an integer literal")
-		}
-		if id, ok := at.Elt.(*ast.Ident); !ok || id.Name != "bool" {
-			lib.Fatalf("legalHeaderKeyBytes: element type is not bool")
-		}
-		var legal []int
-		for _, e := range lit.Elts {
-			kv, ok := e.(*ast.KeyValueExpr)
-			if !ok {
-				lib.Fatalf("legalHeaderKeyBytes: positional element, expected 'c': true")
-			}
-			k, ok := kv.Key.(*ast.BasicLit)
-			if !ok || (k.Kind != token.CHAR && k.Kind != token.INT) {
-				lib.Fatalf("legalHeaderKeyBytes: key is not a char/int literal")
-			}
-			var idx int
-			if k.Kind == token.CHAR {
-				r, _, _, err := strconv.UnquoteChar(k.Value[1:len(k.Value)-1], '\'')
-				if err != nil {
-					lib.Fatalf("legalHeaderKeyBytes: bad char literal %s", k.Value)
-				}
-				idx = int(r)
-			} else {
-				n, err := strconv.ParseInt(k.Value, 0, 32)
-				if err != nil {
-					lib.Fatalf("legalHeaderKeyBytes: bad int literal %s", k.Value)
-				}
-				idx = int(n)
-			}
-			v, ok := kv.Value.(*ast.Ident)
-			if !ok || (v.Name != "true" && v.Name != "false") {
-				lib.Fatalf("legalHeaderKeyBytes: value is not true/false")
-			}
-			if v.Name == "true" {
-				legal = append(legal, idx)
-			}
-		}
-		sort.Ints(legal)
-		ls := make([]string, len(legal))
-		for i, x := range legal {
-			ls[i] = strconv.Itoa(x)
-		}
-		fmt.Fprintf(&b, "/-- length of the array `legalHeaderKeyBytes` (`legalHeaderByte b` is `int(b) < len && table[b]`) -/\n")
-		fmt.Fprintf(&b, "def legalHeaderKeyBytesLen : Nat := %s\n", ln.Value)
-		fmt.Fprintf(&b, "/-- indices of `legalHeaderKeyBytes` that are `true`, ascending -/\n")
-		fmt.Fprintf(&b, "def legalHeaderKeyBytes : List Nat := [%s]\n", strings.Join(ls, ", "))
+		consts := g.Consts(tfile)
 
-		// --- shouldEscape: `!legalHeaderByte(b) || b == '%'`
-		se := lib.FuncDecl(f, "", "shouldEscape")
-		if se == nil || len(se.Body.List) != 1 {
-			lib.Fatalf("shouldEscape: expected a single return statement")
-		}
-		escPercent := false
-		ast.Inspect(se, func(n ast.Node) bool {
-			if be, ok := n.(*ast.BinaryExpr); ok && be.Op == token.EQL {
-				if l, ok := be.Y.(*ast.BasicLit); ok && l.Value == "'%'" {
-					escPercent = true
+		// resolve an expression that denotes a string: literal, constant of the file, or a constant of a dependency that the
+		// impersonation protocol fixes (k8s.io/client-go/transport, k8s.io/api/authentication/v1: same three values)
+		known := map[string]string{"ImpersonateUserHeader": "Impersonate-User", "ImpersonateGroupHeader": "Impersonate-Group",
+			"ImpersonateUserExtraHeaderPrefix": "Impersonate-Extra-"}
+		strOf := func(e ast.Expr) (string, bool) {
+			switch x := e.(type) {
+			case *ast.BasicLit:
+				if x.Kind == token.STRING {
+					s, err := strconv.Unquote(x.Value)
+					return s, err == nil
+				}
+			case *ast.Ident:
+				if v, ok := consts[x.Name]; ok {
+					s, err := strconv.Unquote(v.ExactString())
+					return s, err == nil
+				}
+			case *ast.SelectorExpr:
+				if s, ok := known[x.Sel.Name]; ok {
+					return s, true
 				}
 			}
-			return true
-		})
-		fmt.Fprintf(&b, "/-- `shouldEscape` also escapes '%%' itself (`|| b == '%%'`) -/\n")
-		fmt.Fprintf(&b, "def escapesPercent : Bool := %v\n", escPercent)
-		// every conjunct `'X' <= b && b <= 'Y'` of the disjunction: byte ranges that are escaped although legal
-		var ranges []string
-		charOf := func(e ast.Expr) (int, bool) {
-			l, ok := e.(*ast.BasicLit)
-			if !ok || l.Kind != token.CHAR {
-				return 0, false
-			}
-			r, _, _, err := strconv.UnquoteChar(l.Value[1:len(l.Value)-1], '\'')
-			if err != nil {
-				return 0, false
-			}
-			return int(r), true
+			return "", false
 		}
-		ast.Inspect(se, func(n ast.Node) bool {
-			be, ok := n.(*ast.BinaryExpr)
-			if !ok || be.Op != token.LAND {
-				return true
-			}
-			l, ok1 := be.X.(*ast.BinaryExpr)
-			r, ok2 := be.Y.(*ast.BinaryExpr)
-			if !ok1 || !ok2 || l.Op != token.LEQ || r.Op != token.LEQ {
-				return true
-			}
-			lo, okl := charOf(l.X)
-			hi, okh := charOf(r.Y)
-			_, idl := l.Y.(*ast.Ident)
-			_, idr := r.X.(*ast.Ident)
-			if okl && okh && idl && idr {
-				ranges = append(ranges, fmt.Sprintf("(%d, %d)", lo, hi))
-			}
-			return true
-		})
-		fmt.Fprintf(&b, "/-- `shouldEscape` also escapes these byte ranges (`|| ('X' <= b && b <= 'Y')`): letters a case-insensitive\n    header name cannot carry -/\n")
-		fmt.Fprintf(&b, "def escapeRanges : List (Nat × Nat) := [%s]\n", strings.Join(ranges, ", "))
 
-		// --- WrapRequest refuses identities whose values a header cannot carry: `if err := checkImpersonationValues(x); err != nil { return nil, err }`
 		wr := lib.FuncDecl(f, "dynamicImpersonatingRoundTripper", "WrapRequest")
-		if wr == nil {
-			lib.Fatalf("WrapRequest not found in %s", tfile)
+		if wr == nil { // found by role: the method named WrapRequest of any receiver (the UpgradeRequestRoundTripper interface fixes the name)
+			for _, d := range f.Decls {
+				if fd, ok := d.(*ast.FuncDecl); ok && fd.Recv != nil && fd.Name.Name == "WrapRequest" {
+					wr = fd
+				}
+			}
 		}
-		checks := false
+		if wr == nil {
+			lib.Fatalf("no WrapRequest method in %s", tfile)
+		}
+
+		// --- the family prefix, by role: the X of `strings.HasPrefix(<canonical name>, X)` that guards a `delete(` of a header
+		prefix, found := "", false
 		ast.Inspect(wr, func(n ast.Node) bool {
 			is, ok := n.(*ast.IfStmt)
-			if !ok || is.Init == nil || len(is.Body.List) == 0 {
-				return true
-			}
-			as, ok := is.Init.(*ast.AssignStmt)
-			if !ok || len(as.Rhs) != 1 {
-				return true
-			}
-			call, ok := as.Rhs[0].(*ast.CallExpr)
 			if !ok {
 				return true
 			}
-			id, ok := call.Fun.(*ast.Ident)
-			if !ok || id.Name != "checkImpersonationValues" {
-				return true
-			}
-			if ret, ok := is.Body.List[len(is.Body.List)-1].(*ast.ReturnStmt); ok && len(ret.Results) == 2 {
-				if r0, ok := ret.Results[0].(*ast.Ident); ok && r0.Name == "nil" {
-					checks = true
-				}
-			}
-			return true
-		})
-		fmt.Fprintf(&b, "/-- `WrapRequest` returns an error (forwards nothing) when `checkImpersonationValues(requestor)` fails -/\n")
-		fmt.Fprintf(&b, "def wrapRequestChecksValues : Bool := %v\n", checks)
-
-		// --- order of the filters in buildProxyHandlerChainFunc (first = innermost = applied last to a request)
-		pf := g.ParseFile("cmd/kube-gateway/app/proxy.go")
-		fd := lib.FuncDecl(pf, "", "buildProxyHandlerChainFunc")
-		if fd == nil {
-			lib.Fatalf("buildProxyHandlerChainFunc not found")
-		}
-		var chain []string
-		var walk func(stmts []ast.Stmt, cond bool)
-		walk = func(stmts []ast.Stmt, cond bool) {
-			for _, s := range stmts {
-				switch st := s.(type) {
-				case *ast.ReturnStmt:
-					for _, r := range st.Results {
-						if fl, ok := r.(*ast.FuncLit); ok {
-							walk(fl.Body.List, cond)
-						}
+			deletes := false
+			ast.Inspect(is.Body, func(m ast.Node) bool {
+				if c, ok := m.(*ast.CallExpr); ok {
+					if id, ok := c.Fun.(*ast.Ident); ok && id.Name == "delete" {
+						deletes = true
 					}
-				case *ast.IfStmt:
-					walk(st.Body.List, true)
-				case *ast.AssignStmt:
-					if len(st.Lhs) != 1 || len(st.Rhs) != 1 {
-						continue
-					}
-					lhs, ok := st.Lhs[0].(*ast.Ident)
-					if !ok || lhs.Name != "handler" {
-						continue
-					}
-					call, ok := st.Rhs[0].(*ast.CallExpr)
-					if !ok {
-						continue
-					}
-					sel, ok := call.Fun.(*ast.SelectorExpr)
-					if !ok {
-						continue
-					}
-					name := sel.Sel.Name
-					if cond {
-						name += "?"
-					}
-					chain = append(chain, name)
-				}
-			}
-		}
-		walk(fd.Body.List, false)
-		if len(chain) < 5 {
-			lib.Fatalf("buildProxyHandlerChainFunc: found only %d handler wrappers", len(chain))
-		}
-		fmt.Fprintf(&b, "/-- `handler = X.WithF(handler, …)` statements of buildProxyHandlerChainFunc in source order: the first is the innermost\n    handler (runs last on a request); a trailing `?` marks a conditional wrapper -/\n")
-		fmt.Fprintf(&b, "def proxyChain : List String := %s\n", lib.LeanStrList(chain))
-
-		// --- buildImpersonationRequests refuses references that are not valid UTF-8:
-		//     for _, ref := range impersonationRequests { if !utf8.ValidString(ref.X) || … { return nil, err } }
-		ff := g.ParseFile("pkg/gateway/endpoints/filters/impersonation.go")
-		bi := lib.FuncDecl(ff, "", "buildImpersonationRequests")
-		if bi == nil {
-			lib.Fatalf("buildImpersonationRequests not found")
-		}
-		var utf8Fields []string
-		ast.Inspect(bi, func(n ast.Node) bool {
-			rs, ok := n.(*ast.RangeStmt)
-			if !ok {
-				return true
-			}
-			if id, ok := rs.X.(*ast.Ident); !ok || id.Name != "impersonationRequests" {
-				return true
-			}
-			for _, st := range rs.Body.List {
-				is, ok := st.(*ast.IfStmt)
-				if !ok || len(is.Body.List) == 0 {
-					continue
-				}
-				ret, ok := is.Body.List[len(is.Body.List)-1].(*ast.ReturnStmt)
-				if !ok || len(ret.Results) != 2 {
-					continue
-				}
-				if r0, ok := ret.Results[0].(*ast.Ident); !ok || r0.Name != "nil" {
-					continue
-				}
-				ast.Inspect(is.Cond, func(m ast.Node) bool {
-					ue, ok := m.(*ast.UnaryExpr)
-					if !ok || ue.Op != token.NOT {
-						return true
-					}
-					call, ok := ue.X.(*ast.CallExpr)
-					if !ok || len(call.Args) != 1 {
-						return true
-					}
-					if sel, ok := call.Fun.(*ast.SelectorExpr); ok && sel.Sel.Name == "ValidString" {
-						if x, ok := sel.X.(*ast.Ident); ok && x.Name == "utf8" {
-							if a, ok := call.Args[0].(*ast.SelectorExpr); ok {
-								utf8Fields = append(utf8Fields, a.Sel.Name)
-							}
-						}
-					}
-					return true
-				})
-			}
-			return true
-		})
-		sort.Strings(utf8Fields)
-		fmt.Fprintf(&b, "/-- fields of every impersonation reference `buildImpersonationRequests` requires to be valid UTF-8 (else: error) -/\n")
-		fmt.Fprintf(&b, "def impersonationUTF8Fields : List String := %s\n", lib.LeanStrList(utf8Fields))
-		fmt.Fprintf(&b, "def impersonationRejectsNonUTF8 : Bool := %v\n", len(utf8Fields) > 0)
-
-		// --- the authorizer wiring (shape facts: what a behavioural tie cannot see is WHO else could answer)
-		// (a) AuthorizerConfig.New: every call expression whose result is assigned to / returned as the authorizer
-		af := g.ParseFile("pkg/gateway/proxy/authorizer/config.go")
-		an := lib.FuncDecl(af, "AuthorizerConfig", "New")
-		if an == nil {
-			lib.Fatalf("AuthorizerConfig.New not found")
-		}
-		var ctors []string
-		var collect func(e ast.Expr)
-		collect = func(e ast.Expr) {
-			ast.Inspect(e, func(n ast.Node) bool {
-				if call, ok := n.(*ast.CallExpr); ok {
-					switch f := call.Fun.(type) {
-					case *ast.SelectorExpr:
-						if x, ok := f.X.(*ast.Ident); ok {
-							ctors = append(ctors, x.Name+"."+f.Sel.Name)
-						} else {
-							ctors = append(ctors, f.Sel.Name)
-						}
-					case *ast.Ident:
-						ctors = append(ctors, f.Name)
+					if sel, ok := c.Fun.(*ast.SelectorExpr); ok && sel.Sel.Name == "Del" {
+						deletes = true
 					}
 				}
 				return true
 			})
-		}
-		ast.Inspect(an, func(n ast.Node) bool {
-			switch st := n.(type) {
-			case *ast.AssignStmt:
-				for _, r := range st.Rhs {
-					collect(r)
+			if !deletes {
+				return true
+			}
+			ast.Inspect(is.Cond, func(m ast.Node) bool {
+				if c, ok := m.(*ast.CallExpr); ok && len(c.Args) == 2 {
+					if sel, ok := c.Fun.(*ast.SelectorExpr); ok && sel.Sel.Name == "HasPrefix" {
+						if s, ok := strOf(c.Args[1]); ok {
+							prefix, found = s, true
+						}
+					}
 				}
-			case *ast.ReturnStmt:
-				for _, r := range st.Results {
-					collect(r)
+				return true
+			})
+			return true
+		})
+		if !found {
+			lib.Fatalf("WrapRequest: no `if strings.HasPrefix(name, <prefix>) { delete … }` found")
+		}
+		fmt.Fprintf(&b, "/-- the prefix of the header names `WrapRequest` deletes before writing its own (%s): %q -/\n", tfile, prefix)
+		fmt.Fprintf(&b, "def impersonateHeaderPrefix : List UInt8 := %s\n", byteList(prefix))
+
+		// --- the SET of bytes the extra-key escape %-encodes, by role and by evaluation (not by spelling):
+		//     escape function = the same-file function applied to the key in `Add(<extra prefix> + escape(k), v)`;
+		//     predicate = the same-file `func(byte) bool` its first guarding `if` calls; evaluated on all 256 bytes.
+		sameFile := func(name string) *ast.FuncDecl { return lib.FuncDecl(f, "", name) }
+		escName := ""
+		ast.Inspect(wr, func(n ast.Node) bool {
+			be, ok := n.(*ast.BinaryExpr)
+			if !ok || be.Op != token.ADD {
+				return true
+			}
+			if s, ok := strOf(be.X); !ok || s != "Impersonate-Extra-" {
+				return true
+			}
+			if c, ok := be.Y.(*ast.CallExpr); ok {
+				if id, ok := c.Fun.(*ast.Ident); ok && sameFile(id.Name) != nil {
+					escName = id.Name
 				}
 			}
 			return true
 		})
-		fmt.Fprintf(&b, "/-- every function called in `AuthorizerConfig.New` (pkg/gateway/proxy/authorizer/config.go) to build the authorizer -/\n")
-		fmt.Fprintf(&b, "def authorizerConstructors : List String := %s\n", lib.LeanStrList(ctors))
-		// (b) AuthorizationOptions.ApplyTo: what is stored in genericConfig.Authorization.Authorizer
-		of := g.ParseFile("pkg/gateway/proxy/options/authorization.go")
-		oa := lib.FuncDecl(of, "AuthorizationOptions", "ApplyTo")
-		if oa == nil {
-			lib.Fatalf("AuthorizationOptions.ApplyTo not found")
+		if escName == "" {
+			lib.Fatalf("WrapRequest: no `<Impersonate-Extra- prefix> + escape(key)` with a helper of this file found")
 		}
+		predName := ""
+		ast.Inspect(sameFile(escName), func(n ast.Node) bool {
+			is, ok := n.(*ast.IfStmt)
+			if !ok || predName != "" {
+				return true
+			}
+			ast.Inspect(is.Cond, func(m ast.Node) bool {
+				if c, ok := m.(*ast.CallExpr); ok && len(c.Args) == 1 && predName == "" {
+					if id, ok := c.Fun.(*ast.Ident); ok {
+						if fd := sameFile(id.Name); fd != nil && fd.Type.Results != nil && len(fd.Type.Results.List) == 1 {
+							if rt, ok := fd.Type.Results.List[0].Type.(*ast.Ident); ok && rt.Name == "bool" {
+								predName = id.Name
+							}
+						}
+					}
+				}
+				return true
+			})
+			return true
+		})
+		if predName == "" {
+			lib.Fatalf("%s: no `if <predicate of this file>(byte)` found", escName)
+		}
+		set, err := byteSet(f, predName)
+		if err != nil {
+			lib.Fatalf("cannot evaluate %s on every byte: %v", predName, err)
+		}
+		ls := make([]string, len(set))
+		for i, x := range set {
+			ls[i] = strconv.Itoa(x)
+		}
+		fmt.Fprintf(&b, "/-- the bytes of an extra key that `%s` %%-encodes: `%s(b)` evaluated from the source for b = 0..255 -/\n", escName, predName)
+		fmt.Fprintf(&b, "def escapedBytes : List Nat := [%s]\n", strings.Join(ls, ", "))
+
+		// --- who can answer an impersonation check (what no behavioural stream can exhaust): every function whose result can
+		//     become the authorizer `AuthorizerConfig.New` returns, named by import path (not by import alias)
+		af := g.ParseFile("pkg/gateway/proxy/authorizer/config.go")
+		imports := map[string]string{}
+		for _, im := range af.Imports {
+			path, _ := strconv.Unquote(im.Path.Value)
+			name := path[strings.LastIndex(path, "/")+1:]
+			if im.Name != nil {
+				name = im.Name.Name
+			}
+			imports[name] = path
+		}
+		var an *ast.FuncDecl
+		for _, d := range af.Decls { // by role: the method that returns (authorizer.Authorizer, …)
+			fd, ok := d.(*ast.FuncDecl)
+			if !ok || fd.Recv == nil || fd.Type.Results == nil || len(fd.Type.Results.List) == 0 {
+				continue
+			}
+			if sel, ok := fd.Type.Results.List[0].Type.(*ast.SelectorExpr); ok && sel.Sel.Name == "Authorizer" {
+				an = fd
+			}
+		}
+		if an == nil {
+			lib.Fatalf("no method returning an authorizer.Authorizer in pkg/gateway/proxy/authorizer/config.go")
+		}
+		ctorSet := map[string]bool{}
+		ast.Inspect(an, func(n ast.Node) bool {
+			call, ok := n.(*ast.CallExpr)
+			if !ok {
+				return true
+			}
+			switch fn := call.Fun.(type) {
+			case *ast.SelectorExpr:
+				if x, ok := fn.X.(*ast.Ident); ok {
+					if p, ok := imports[x.Name]; ok {
+						ctorSet[p+"."+fn.Sel.Name] = true
+					} else {
+						ctorSet["(method)."+fn.Sel.Name] = true
+					}
+				} else {
+					ctorSet["(method)."+fn.Sel.Name] = true
+				}
+			case *ast.Ident:
+				ctorSet["(local)."+fn.Name] = true
+			}
+			return true
+		})
+		var ctors []string
+		for c := range ctorSet {
+			ctors = append(ctors, c)
+		}
+		sort.Strings(ctors)
+		fmt.Fprintf(&b, "/-- every function called by the method of pkg/gateway/proxy/authorizer/config.go that returns the authorizer (import paths) -/\n")
+		fmt.Fprintf(&b, "def authorizerConstructors : List String := %s\n", lib.LeanStrList(ctors))
+
+		// --- CreateProxyConfig wires that authorizer for the SAME config and the SAME cluster manager the handler chain uses
+		pf := g.ParseFile("cmd/kube-gateway/app/proxy.go")
 		exprString := func(e ast.Expr) string {
 			var sb strings.Builder
 			var w func(e ast.Expr)
@@ -360,16 +239,6 @@ func main() {
 				case *ast.UnaryExpr:
 					sb.WriteString(x.Op.String())
 					w(x.X)
-				case *ast.CallExpr:
-					w(x.Fun)
-					sb.WriteString("(")
-					for i, a := range x.Args {
-						if i > 0 {
-							sb.WriteString(", ")
-						}
-						w(a)
-					}
-					sb.WriteString(")")
 				default:
 					sb.WriteString("?")
 				}
@@ -377,57 +246,44 @@ func main() {
 			w(e)
 			return sb.String()
 		}
-		var applyStmts []string
-		for _, st := range oa.Body.List {
-			if as, ok := st.(*ast.AssignStmt); ok {
-				var l, r []string
-				for _, e := range as.Lhs {
-					l = append(l, exprString(e))
-				}
-				for _, e := range as.Rhs {
-					r = append(r, exprString(e))
-				}
-				applyStmts = append(applyStmts, strings.Join(l, ", ")+" "+as.Tok.String()+" "+strings.Join(r, ", "))
-			}
-		}
-		fmt.Fprintf(&b, "/-- the assignments of `AuthorizationOptions.ApplyTo` (pkg/gateway/proxy/options/authorization.go), in order -/\n")
-		fmt.Fprintf(&b, "def authorizationApplyTo : List String := %s\n", lib.LeanStrList(applyStmts))
-		// (c) proxy.go: the authorizer handed to the impersonation filter, and the ApplyTo call of CreateProxyConfig
-		var filterAuthorizer, applyCall string
+		var chainCfg, chainOpts, applyCfg, applyMgr, chainMgr string
 		ast.Inspect(pf, func(n ast.Node) bool {
-			call, ok := n.(*ast.CallExpr)
-			if !ok {
+			switch x := n.(type) {
+			case *ast.AssignStmt: // <cfg>.BuildHandlerChainFunc = <builder>(<opts>)
+				if len(x.Lhs) == 1 && len(x.Rhs) == 1 {
+					if sel, ok := x.Lhs[0].(*ast.SelectorExpr); ok && sel.Sel.Name == "BuildHandlerChainFunc" {
+						chainCfg = exprString(sel.X)
+						if c, ok := x.Rhs[0].(*ast.CallExpr); ok && len(c.Args) == 1 {
+							chainOpts = exprString(c.Args[0])
+						}
+					}
+				}
+			case *ast.CallExpr: // <o>.Authorization.ApplyTo(&<cfg>, <manager>)
+				if sel, ok := x.Fun.(*ast.SelectorExpr); ok && sel.Sel.Name == "ApplyTo" && len(x.Args) == 2 {
+					if r, ok := sel.X.(*ast.SelectorExpr); ok && r.Sel.Name == "Authorization" {
+						applyCfg = strings.TrimPrefix(exprString(x.Args[0]), "&")
+						applyMgr = exprString(x.Args[1])
+					}
+				}
+			}
+			return true
+		})
+		ast.Inspect(pf, func(n ast.Node) bool { // <opts> := &T{ <manager field>: <manager>, … }: the only field of a manager-like value
+			as, ok := n.(*ast.AssignStmt)
+			if !ok || len(as.Lhs) != 1 || len(as.Rhs) != 1 || exprString(as.Lhs[0]) != chainOpts || chainOpts == "" {
 				return true
 			}
-			if sel, ok := call.Fun.(*ast.SelectorExpr); ok {
-				if sel.Sel.Name == "WithNoLoggingImpersonation" && len(call.Args) >= 2 {
-					filterAuthorizer = exprString(call.Args[1])
+			ast.Inspect(as.Rhs[0], func(m ast.Node) bool {
+				if kv, ok := m.(*ast.KeyValueExpr); ok && exprString(kv.Value) == applyMgr {
+					chainMgr = exprString(kv.Value)
 				}
-				if sel.Sel.Name == "ApplyTo" && exprString(sel.X) == "o.Authorization" {
-					applyCall = exprString(call)
-				}
-			}
+				return true
+			})
 			return true
 		})
-		if filterAuthorizer == "" || applyCall == "" {
-			lib.Fatalf("proxy.go: WithNoLoggingImpersonation(handler, <authorizer>, …) or o.Authorization.ApplyTo(…) not found")
-		}
-		fmt.Fprintf(&b, "/-- the authorizer argument of `WithNoLoggingImpersonation` in buildProxyHandlerChainFunc -/\n")
-		fmt.Fprintf(&b, "def filterAuthorizer : String := %q\n", filterAuthorizer)
-		fmt.Fprintf(&b, "/-- the call that wires the proxy authorizer in `CreateProxyConfig` -/\n")
-		fmt.Fprintf(&b, "def proxyAuthorizationApply : String := %q\n", applyCall)
-		// the cluster manager of the handler chain is the same object
-		var chainManager string
-		ast.Inspect(pf, func(n ast.Node) bool {
-			if kv, ok := n.(*ast.KeyValueExpr); ok {
-				if k, ok := kv.Key.(*ast.Ident); ok && k.Name == "clusterManager" {
-					chainManager = exprString(kv.Value)
-				}
-			}
-			return true
-		})
-		fmt.Fprintf(&b, "/-- `proxyHandlerOptions.clusterManager` in `CreateProxyConfig` -/\n")
-		fmt.Fprintf(&b, "def chainClusterManager : String := %q\n", chainManager)
+		same := chainCfg != "" && chainCfg == applyCfg && applyMgr != "" && applyMgr == chainMgr
+		fmt.Fprintf(&b, "/-- in `CreateProxyConfig`: `Authorization.ApplyTo(&C, M)` is called for the config C whose `BuildHandlerChainFunc` is the proxy\n    chain (%q) and with the cluster manager M the chain's options carry (%q) -/\n", chainCfg, applyMgr)
+		fmt.Fprintf(&b, "def authorizerWiredForTheChain : Bool := %v\n", same)
 
 		b.WriteString("end KG.Gen.C02\n")
 		g.Emit("C02.lean", b.String())
